@@ -995,6 +995,40 @@ impl ProverChannel {
     }
 }
 
+// ---------------------------------------------------------------------------------------------------------------------
+// FriProof::new (fri/src/proof.rs, C12 / C15): the writer parse_remainder reads back - the remainder section holds the encodings of
+// ALL remainder coefficients in order (none dropped), the layers are stored unchanged, the partition count as its binary
+// logarithm. The four assertions are the documented pre-conditions.
+pub uninterp spec fn trailing_zeros_spec(x: usize) -> u32;
+#[verifier::external_body]
+pub fn trailing_zeros(x: usize) -> (r: u32) ensures r == trailing_zeros_spec(x), r <= 64 { x.trailing_zeros() }
+pub struct FriProofN { pub layers: Vec<FriProofLayer>, pub remainder: VecWriter, pub num_partitions: u8 }
+impl FriProofN {
+    //@@ source fri/src/proof.rs
+    //@@ extract anchor="pub(crate) fn new<E: FieldElement>("
+    //@@ rewrite-re "(?s)assert!\(\s*([^,]+),.*?\);" => "if !(\1) { must_not_panic(); }"
+    //@@ rewrite "remainder.len().is_power_of_two()" => "is_power_of_two(remainder.len())"
+    //@@ rewrite "num_partitions.is_power_of_two()" => "is_power_of_two(num_partitions)"
+    //@@ rewrite "E::ELEMENT_BYTES" => "E::element_bytes()"
+    //@@ rewrite "Vec::with_capacity(" => "writer_with_capacity("
+    //@@ rewrite "num_partitions.trailing_zeros()" => "trailing_zeros(num_partitions)"
+    //@@ rewrite "FriProof {" => "FriProofN {"
+    pub fn new(layers: Vec<FriProofLayer>, remainder: Vec<T>, num_partitions: usize) -> (r: Self)
+        requires
+            1 <= remainder@.len() <= 0x1_0000_0000, is_pow2_spec(remainder.len()),
+            num_partitions > 0, is_pow2_spec(num_partitions), 1 <= elem_bytes() <= 64,
+        ensures
+            r.remainder.v@ == enc_many(remainder@),
+            r.layers == layers,
+            r.num_partitions == trailing_zeros_spec(num_partitions) as u8,
+    {
+        proof {
+            assert(elem_bytes() as int * remainder@.len() as int <= 64 * 0x1_0000_0000) by (nonlinear_arith) requires elem_bytes() <= 64, remainder@.len() <= 0x1_0000_0000;
+        }
+        /*@@body*/
+    }
+}
+
 proof fn oodv_canary_must_fail(b: Seq<u8>)
     requires trace_ok(b, 1)
     ensures b.len() == 1
